@@ -96,6 +96,13 @@ def classify(case, failed):
     return ""
 
 
+def _rerun(case):
+    den = case.get("den", 1)
+    return {"in": case["in"], "obs": run_real(case["in"], den)}
+
+
+REPLAY = ("Trace_Segmenter", "Trace_Segmenter.cfg", _rerun, ("den",))
+
 def run(ctx: Ctx):
     quick = ctx.tier == "quick"
     rng = random.Random(ctx.seed * 7919 + 13)
